@@ -193,6 +193,10 @@ Next == \/ /\ stage = "produce" /\ instr < MaxInstr
         \/ /\ CanMutate /\ QuoteFamily          \* only tokens of the generated instruction and of [act]
            /\ \E i \in (Len(Frame) + 1)..Len(toks) : \E q \in {"'", "\""} :
                  toks[i] \notin {"[act]", "[assert]"} /\ Unquote(i, q)
+        \* ... and every such token replaced by the empty string, soft or hard quoted
+        \/ /\ CanMutate /\ QuoteFamily
+           /\ \E i \in (Len(Frame) + 1)..Len(toks) : \E x \in {"\"\"", "''"} :
+                 toks[i] \notin {"[act]", "[assert]", "NL"} /\ Replace(i, x)
         \* ... and the case cut short at every such token, which becomes white space of another kind, without a
         \* final new-line ("NOEOL")
         \/ /\ CanMutate /\ QuoteFamily
